@@ -43,10 +43,18 @@ func (g *Gen) historyStep() {
 	case 13:
 		g.do(Step{Op: "Distinct", Recv: f, Cols: bsList(g.subset(s.names, 2)), Null: g.rng.Intn(2) == 0})
 	case 14, 15:
-		g.do(Step{Op: "GroupBy", Recv: f, Cols: bsList(g.subset(s.names, 2)), Null: g.rng.Intn(2) == 0})
+		gcols := g.subset(s.names, 2)
+		if g.rng.Intn(4) == 0 {
+			gcols = nil // one group of all rows: the grouper holds the frame's own index
+		}
+		g.do(Step{Op: "GroupBy", Recv: f, Cols: bsList(gcols), Null: g.rng.Intn(2) == 0})
 		gid := len(g.x.groupers) - 1
 		if g.rng.Intn(2) == 0 {
-			g.do(Step{Op: "Aggregate", Recv: gid, Aggs: g.randomAggs(s, nil)})
+			aggs := g.randomAggs(s, nil)
+			if g.rng.Intn(2) == 0 {
+				aggs = g.builtinAggs(s)
+			}
+			g.do(Step{Op: "Aggregate", Recv: gid, Aggs: aggs})
 		} else if s.n <= 40 {
 			g.do(Step{Op: "QFrames", Recv: gid})
 		}
@@ -66,13 +74,39 @@ func (g *Gen) historyStep() {
 	}
 }
 
+// builtinAggs: only built-in aggregations (valid for the column's type)
+func (g *Gen) builtinAggs(s schema) []Agg {
+	aggs := []Agg{}
+	used := map[string]bool{}
+	for k := 1 + g.rng.Intn(2); k > 0; k-- {
+		c := g.oneOf(s.names)
+		if used[c] {
+			continue
+		}
+		used[c] = true
+		var fn string
+		switch s.typeOf(c) {
+		case "int":
+			fn = g.oneOf([]string{"sum", "min", "max", "count"})
+		case "float":
+			fn = g.oneOf([]string{"max", "min", "count"})
+		case "bool":
+			fn = g.oneOf([]string{"majority", "count"})
+		default:
+			fn = "count"
+		}
+		aggs = append(aggs, Agg{Fn: FnRef{K: "builtin", Sym: fn}, Col: toBS(c), As: toBS("agg_" + c)})
+	}
+	return aggs
+}
+
 func genC01(g *Gen) {
 	colsets := []string{"ABF", "AFTSE", "SREX", "ABCFGTUSRED", "FS", "ATE"}
 	sizes := []int{0, 1, 2, 3, 5, 8, 13, 21, 40}
 	if g.thorough() {
 		sizes = append(sizes, 80, 200)
 	}
-	for rep := 0; rep < g.pick(40, 1200); rep++ {
+	for rep := 0; rep < g.pick(150, 2000); rep++ {
 		n := sizes[g.rng.Intn(len(sizes))]
 		g.begin("history")
 		g.do(g.stdNew(n, colsets[g.rng.Intn(len(colsets))], 10))
